@@ -128,7 +128,7 @@ pub fn map_new<const N: usize>(arr: [Tok; N], closure: u8, exit: Exit, held: &mu
                     });
                     MapOut::Arr(r)
                 }
-                _ => {
+                2 => {
                     let r: [Tok; N] = konst::array::map_!(arr, |t| {
                         calls += 1;
                         if calls == k {
@@ -138,6 +138,22 @@ pub fn map_new<const N: usize>(arr: [Tok; N], closure: u8, exit: Exit, held: &mu
                         held.push(t);
                         c
                     });
+                    MapOut::Arr(r)
+                }
+                3 => {
+                    // typed parameter and return type
+                    let r = konst::array::map_!(arr, |t: Tok| -> Tok {
+                        calls += 1;
+                        if calls == k {
+                            $fault
+                        }
+                        t
+                    });
+                    MapOut::Arr(r)
+                }
+                _ => {
+                    // a function path instead of a closure
+                    let r: [Tok; N] = konst::array::map_!(arr, tok_identity);
                     MapOut::Arr(r)
                 }
             }
@@ -153,19 +169,34 @@ pub fn map_new<const N: usize>(arr: [Tok; N], closure: u8, exit: Exit, held: &mu
     }
 }
 
-pub fn from_fn_new<const N: usize>(exit: Exit) -> MapOut<N> {
+pub fn tok_identity(t: Tok) -> Tok {
+    t
+}
+
+pub fn from_fn_new<const N: usize>(exit: Exit, typed: bool) -> MapOut<N> {
     let mut calls = 0u32;
     let (kind, k) = exit.split();
     macro_rules! go {
         ($fault:expr) => {{
-            let r: [Tok; N] = konst::array::from_fn_!(|_i| {
-                calls += 1;
-                if calls == k {
-                    $fault
-                }
-                Tok::fresh()
-            });
-            MapOut::Arr(r)
+            if typed {
+                let r = konst::array::from_fn_!([Tok; N] => |_i| {
+                    calls += 1;
+                    if calls == k {
+                        $fault
+                    }
+                    Tok::fresh()
+                });
+                MapOut::Arr(r)
+            } else {
+                let r: [Tok; N] = konst::array::from_fn_!(|_i| {
+                    calls += 1;
+                    if calls == k {
+                        $fault
+                    }
+                    Tok::fresh()
+                });
+                MapOut::Arr(r)
+            }
         }};
     }
     #[allow(unreachable_code)]
@@ -205,19 +236,30 @@ pub fn map_old<const N: usize>(arr: &[Tok; N], exit: Exit) -> MapOut<N> {
     }
 }
 
-pub fn from_fn_old<const N: usize>(exit: Exit) -> MapOut<N> {
+pub fn from_fn_old<const N: usize>(exit: Exit, typed: bool) -> MapOut<N> {
     let mut calls = 0u32;
     let (kind, k) = exit.split();
     macro_rules! go {
         ($fault:expr) => {{
-            let r: [Tok; N] = konst::array::from_fn!(|_i| {
-                calls += 1;
-                if calls == k {
-                    $fault
-                }
-                Tok::fresh()
-            });
-            MapOut::Arr(r)
+            if typed {
+                let r = konst::array::from_fn!([Tok; N] => |_i| {
+                    calls += 1;
+                    if calls == k {
+                        $fault
+                    }
+                    Tok::fresh()
+                });
+                MapOut::Arr(r)
+            } else {
+                let r: [Tok; N] = konst::array::from_fn!(|_i| {
+                    calls += 1;
+                    if calls == k {
+                        $fault
+                    }
+                    Tok::fresh()
+                });
+                MapOut::Arr(r)
+            }
         }};
     }
     #[allow(unreachable_code)]
